@@ -786,14 +786,21 @@ class Lowerer:
                     else:
                         parts = ['%s((%s*)cxx_new(sizeof(%s))' % (cname_, kl, kl)]
                     first = incomplete
-                    for a in args:
+                    cps = split_params(ce['ctorType']['qualType'])[1]
+                    for ai, a in enumerate(args):
                         if a.get('kind') == 'CXXDefaultArgExpr':
                             raise LowerError('%s: default argument in constructor of %s' % (qual, kl))
                         ar = rng(a)
                         if not first:
                             parts.append(', ')
                         first = False
+                        byref = ai < len(cps) and cps[ai].strip().endswith('&') and not is_stream(cps[ai]) and a.get('valueCategory') == 'lvalue'
+                        if byref:
+                            parts.append('&(')
                         parts.append((ar[0], ar[1]))
+                        if byref:
+                            parts.append(')')
+                            note('ref-arg')
                     parts.append(')')
                     ed.add(s, e, parts)
                     note('new-object')
